@@ -42,7 +42,7 @@ def main():
                 + "; ".join(ck.trusted) + ".",
             )
             rules = sorted({o.rule.split(".", 1)[1] for o in ck.obs if "." in o.rule})
-            meta.setdefault("technique", "static analysis: cut-set guards / dominance / provenance / writer-reader agreement over the parsed source; rules: " + ", ".join(rules))
+            meta.setdefault("technique", "static analysis (custom ast-based checker; nothing is executed): CFG cut-set guards / dominance / provenance / writer-reader agreement and a per-function swallowed-exception profile over the normalised parsed source; rules: " + ", ".join(rules))
         except Exception as exc:  # noqa: BLE001
             print(f"warning: could not evaluate {pid} for manifest text: {exc}")
         if meta.get("not_applicable"):
